@@ -263,7 +263,8 @@ def generate(unit_dir, mustfail=False, mutate=None, variant=None, template='unit
                 txt = '#[%s]\n' % o['attr'] + txt
             indent = line[:len(line) - len(line.lstrip())]
             for st in (auto_stubs or {}).get(rname, []):
-                if st['kind'] == 'free' and indent:
+                encl = next((l.strip() for l in reversed(out) if l.strip() and not l.strip().startswith('//') and len(l) - len(l.lstrip()) < len(indent)), '')
+                if st['kind'] == 'free' and indent and re.match(r'(pub\s+)?(unsafe\s+)?impl\b', encl):
                     # referenced from inside an impl block of the template: a free function goes to the top level
                     if st['qual'] not in [x['qual'] for x in top_free]:
                         top_free.append(st)
